@@ -338,9 +338,11 @@ Proof.
   apply good_with_workloads_locked. apply good_ret.
 Qed.
 
-Theorem op_main_good : forall s o m, In m (op_main s o) -> good_under 0 m.
+Definition is_wl_helper (o : op) : bool := match o with OHelperWorkloads _ _ _ => true | _ => false end.
+
+Theorem op_main_good : forall s o m, is_wl_helper o = false -> In m (op_main s o) -> good_under 0 m.
 Proof.
-  intros s o m Hm. destruct o; simpl in Hm.
+  intros s o m Hh Hm. destruct o; simpl in Hm; try discriminate Hh.
   - (* create *)
     destruct Hm as [Hm|[]]. subst m. apply good_bind_err.
     + apply good_with_nodes_locked with (c := 0); [cls | intros; apply good_ret].
@@ -374,8 +376,96 @@ Proof.
     + eapply good_mono with (c := 2); [lia|].
       apply good_with_nodes_locked with (c := 2); [cls | intros; apply good_ret].
     + apply good_with_nodes_locked with (c := 0); [cls | intros; apply good_ret].
-  - destruct Hm as [Hm|[]]. subst m. eapply good_mono with (c := 1); [lia|].
-    apply good_with_workloads_locked. apply good_ret.
+Qed.
+
+(* ---------- the multi-id workload helper with its release-order oracle ---------- *)
+Notation orun := (ord_run key_eqb key_ltb).
+
+Lemma key_eqb_refl : forall k, key_eqb k k = true.
+Proof. intros. unfold key_eqb. apply String.eqb_refl. Qed.
+
+Lemma memb_app_l : forall k a b, memb key_eqb k a = true -> memb key_eqb k (a ++ b) = true.
+Proof. intros k a b H. unfold memb in *. rewrite existsb_app, H. reflexivity. Qed.
+
+Lemma removeb_app_in : forall k a b, memb key_eqb k a = true ->
+  removeb key_eqb k (a ++ b) = removeb key_eqb k a ++ b.
+Proof.
+  intros k a b. induction a as [|x t IH]; intros H; [discriminate|]. cbn in *.
+  destruct (key_eqb k x); [reflexivity|]. cbn in H. cbn. f_equal. apply IH. exact H.
+Qed.
+
+Lemma ord_release : forall orc acq h0, is_perm orc acq = true -> orun (acq ++ h0) (map Rel orc) = Some h0.
+Proof.
+  induction orc as [|k t IH]; intros acq h0 H; cbn in *.
+  - destruct acq; [reflexivity | discriminate].
+  - apply andb_true_iff in H. destruct H as [Hm Hp].
+    rewrite (memb_app_l _ _ _ Hm), (removeb_app_in _ _ _ Hm). apply IH. exact Hp.
+Qed.
+
+Lemma is_perm_refl : forall l, is_perm l l = true.
+Proof. induction l as [|k t IH]; [reflexivity|]. cbn. rewrite key_eqb_refl. cbn. exact IH. Qed.
+
+Lemma release_order_perm : forall orc acq, is_perm (release_order orc acq) acq = true.
+Proof. intros. unfold release_order. destruct (is_perm orc acq) eqn:E; [exact E | apply is_perm_refl]. Qed.
+
+Lemma ord_with_keys_o : forall c keys orc acq err fl n h0,
+  incr keys -> (forall k, In k keys -> class k = c) -> all_class_lt c h0 ->
+  (forall a, In a acq -> class a = c /\ forall k, In k keys -> String.ltb a k = true) ->
+  orun (acq ++ h0) (r_evs (with_keys_from_o orc keys acq err fl n)) = Some h0.
+Proof.
+  intros c keys. induction keys as [|k ks IH]; intros orc acq err fl n h0 Hincr Hcls Hh0 Hacq; cbn.
+  - apply ord_release. apply is_perm_refl.
+  - assert (Hab : above key_ltb (acq ++ h0) k = true).
+    { unfold above. apply forallb_forall. intros x Hx. unfold key_ltb.
+      apply in_app_or in Hx. destruct Hx as [Hx|Hx].
+      - destruct (Hacq x Hx) as [E L]. rewrite E, (Hcls k (or_introl eq_refl)), Nat.eqb_refl.
+        rewrite (L k (or_introl eq_refl)). apply orb_true_r.
+      - specialize (Hh0 x Hx). rewrite (Hcls k (or_introl eq_refl)).
+        apply orb_true_iff. left. apply Nat.ltb_lt. exact Hh0. }
+    inversion Hincr as [|? ? Hk Hks]; subst.
+    destruct (fl k n); cbn; rewrite Hab.
+    + apply ord_release. apply release_order_perm.
+    + change (k :: acq ++ h0) with ((k :: acq) ++ h0). apply IH; auto.
+      * intros k' Hk'. apply Hcls. right. exact Hk'.
+      * intros a [Ha|Ha].
+        -- subst a. split; [apply Hcls; left; reflexivity | exact Hk].
+        -- destruct (Hacq a Ha) as [E L]. split; [exact E | intros k' Hk'; apply L; right; exact Hk'].
+Qed.
+
+Lemma incr_map_wl_key : forall l, incr l -> incr (map wl_key l).
+Proof.
+  intros l Hl. induction Hl as [|x t Hx Ht IH]; simpl; constructor; [|exact IH].
+  intros y Hy. apply in_map_iff in Hy. destruct Hy as [z [E Hz]]. subst y.
+  specialize (Hx z Hz). unfold wl_key. unfold String.ltb in *. simpl. exact Hx.
+Qed.
+
+Theorem helper_wl_ordered : forall s ign ids rel fl n,
+  orun [] (r_evs (with_workloads_helper s ign ids rel fl n)) = Some [].
+Proof.
+  intros. unfold with_workloads_helper. destruct (get_all _ _); [|reflexivity].
+  destruct ign; [reflexivity|].
+  change (@nil key) with (@nil key ++ @nil key) at 1.
+  apply ord_with_keys_o with (c := 1).
+  - apply incr_map_wl_key. apply sort_uniq_incr.
+  - intros k Hk. apply in_map_iff in Hk. destruct Hk as [z [E _]]. subst. apply class_wl.
+  - intros x [].
+  - intros a [].
+Qed.
+
+Lemma sat_with_keys_from_o : forall P orc keys acq err,
+  (forall k, In k keys -> P k = true) -> (forall k, In k acq -> P k = true) ->
+  keys_sat P (with_keys_from_o orc keys acq err).
+Proof.
+  intros P orc keys. induction keys as [|k ks IH]; intros acq err Hk Ha fl n; cbn.
+  - apply forallb_forall. intros e He. apply in_map_iff in He. destruct He as [x [E Hx]]. subst e. apply Ha. exact Hx.
+  - destruct (fl k n); cbn; rewrite (Hk k (or_introl eq_refl)); cbn.
+    + apply forallb_forall. intros e He. apply in_map_iff in He. destruct He as [x [E Hx]]. subst e. cbn.
+      unfold release_order in Hx. destruct (is_perm _ acq); [|apply Ha; exact Hx].
+      apply filter_In in Hx. destruct Hx as [_ Hx]. apply Ha. unfold memb in Hx. apply existsb_exists in Hx.
+      destruct Hx as [y [Hy E]]. apply key_eqb_spec in E. subst. exact Hy.
+    + apply IH.
+      * intros k' Hk'. apply Hk. right. exact Hk'.
+      * intros k' [Hk'|Hk']; [subst; apply Hk; left; reflexivity | apply Ha; exact Hk'].
 Qed.
 
 (* ---------- from strict_run to the three thread properties ---------- *)
@@ -532,7 +622,10 @@ Proof.
     + destruct Hn as [Hn|Hn]; [discriminate|].
       apply sat_with_nodes_locked; [intros; apply Hn | intros; apply sat_ret].
     + apply sat_with_nodes_locked; [intros; apply Hp | intros; apply sat_ret].
-  - destruct Hm as [Hm|[]]. subst m. apply sat_with_workloads_locked; [exact Hw | apply sat_ret].
+  - destruct Hm as [Hm|[]]. subst m. unfold with_workloads_helper.
+    destruct (get_all _ _); [|apply sat_ret]. destruct ignore_lock; [apply sat_ret|].
+    apply sat_with_keys_from_o; [|intros k []].
+    intros k Hk. apply in_map_iff in Hk. destruct Hk as [i [E _]]. subst. apply Hw.
 Qed.
 
 Lemma sat_remap_thread : forall P s name,
@@ -613,16 +706,18 @@ Proof.
 Qed.
 
 Theorem op_threads_ok : forall s o fls flr t, In t (op_threads s o fls flr) ->
-  k_ordered t = true /\ k_nested t = true /\ known_class t = true /\
+  k_ordered t = true /\
+  (match o with OHelperWorkloads _ _ _ => True | _ => k_nested t = true end) /\
+  known_class t = true /\
   (match o with OHelperNodes _ true => True | _ => nodeop_alone t = true end).
 Proof.
   intros s o fls flr t H. destruct (thread_cases _ _ _ _ _ H) as [[m [fl [Hm E]]]|[nd [fl E]]]; subst t.
-  - destruct (good_thread m fl (op_main_good s o m Hm)) as [H1 H2].
-    split; [exact H1|]. split; [exact H2|]. split.
-    + unfold known_class. assert (S : keys_sat knownP m).
+  - assert (Hkn : known_class (r_evs (m fl 0)) = true).
+    { unfold known_class. assert (S : keys_sat knownP m).
       { apply (op_main_sat knownP s o m); [kp | kp | right; kp | exact Hm]. }
-      specialize (S fl 0). erewrite forallb_ext'; [exact S|]. intros [k|k|k]; reflexivity.
-    + destruct (is_nodeop_thread o) eqn:En.
+      specialize (S fl 0). erewrite forallb_ext'; [exact S|]. intros [k|k|k]; reflexivity. }
+    assert (Halone : match o with OHelperNodes _ true => True | _ => nodeop_alone (r_evs (m fl 0)) = true end).
+    { destruct (is_nodeop_thread o) eqn:En.
       * destruct o; try discriminate.
         -- simpl in Hm. destruct Hm as [Hm|[]]. subst m. apply remap_thread_alone.
         -- destruct node_op; [exact I | discriminate].
@@ -630,9 +725,15 @@ Proof.
         { apply (op_main_sat lowP s o m); [kp | kp | left; exact En | exact Hm]. }
         assert (R : nodeop_alone (r_evs (m fl 0)) = true).
         { unfold nodeop_alone. apply low_nodeop_run; [apply S | reflexivity]. }
-        destruct o; try exact R. match goal with |- match ?b with true => _ | false => _ end => destruct b end; [discriminate | exact R].
+        destruct o; try exact R. match goal with |- match ?b with true => _ | false => _ end => destruct b end; [discriminate | exact R]. }
+    destruct (is_wl_helper o) eqn:Eh.
+    + destruct o; try discriminate. simpl in Hm. destruct Hm as [Hm|[]]. subst m.
+      split; [|split; [exact I | split; [exact Hkn | exact Halone]]].
+      unfold k_ordered, ordered. rewrite helper_wl_ordered. reflexivity.
+    + destruct (good_thread m fl (op_main_good s o m Eh Hm)) as [H1 H2].
+      split; [exact H1|]. split; [destruct o; try exact H2; exact I|]. split; [exact Hkn | exact Halone].
   - destruct (good_thread (remap_thread s nd) fl (good_remap_thread s nd)) as [H1 H2].
-    split; [exact H1|]. split; [exact H2|]. split.
+    split; [exact H1|]. split; [destruct o; try exact H2; exact I|]. split.
     + unfold known_class. assert (S : keys_sat knownP (remap_thread s nd)).
       { apply sat_remap_thread. kp. }
       specialize (S fl 0). erewrite forallb_ext'; [exact S|]. intros [k|k|k]; reflexivity.
@@ -640,11 +741,13 @@ Proof.
 Qed.
 
 Theorem op_thread_ok_bool : forall s o fls flr t,
-  match o with OHelperNodes _ true => False | _ => True end ->
+  match o with OHelperNodes _ true => False | OHelperWorkloads _ _ _ => False | _ => True end ->
   In t (op_threads s o fls flr) -> thread_ok t = true.
 Proof.
   intros s o fls flr t Ho H. destruct (op_threads_ok _ _ _ _ _ H) as [H1 [H2 [H3 H4]]].
-  unfold thread_ok. rewrite H1, H2, H3. simpl. rewrite andb_true_r. destruct o; try exact H4. match type of H4 with match ?b with true => _ | false => _ end => destruct b end; [destruct Ho | exact H4].
+  unfold thread_ok. rewrite H1, H3.
+  assert (N : k_nested t = true) by (destruct o; try exact H2; destruct Ho).
+  rewrite N. simpl. rewrite andb_true_r. destruct o; try exact H4. match type of H4 with match ?b with true => _ | false => _ end => destruct b end; [destruct Ho | exact H4].
 Qed.
 
 (* ---------- no deadlock, for any set of operations under any schedule ---------- *)
@@ -680,12 +783,12 @@ Qed.
 (* non-vacuity: the witness of the (repaired) cross-pod defect: two creates with
    include lists [a1(X), b1(Y)] and [a2(Y), b2(X)] lock plock_X then plock_Y both *)
 Definition ex_store : lstore :=
-  mkStore [mkNode "a1" "X" true; mkNode "b1" "Y" true; mkNode "a2" "Y" true; mkNode "b2" "X" true] [].
+  mkStore [mkNode "a1" "X" true []; mkNode "b1" "Y" true []; mkNode "a2" "Y" true []; mkNode "b2" "X" true []] [].
 Definition no_fail : nat -> key -> nat -> bool := fun _ _ _ => false.
 Example cross_pod_creates :
-  op_threads ex_store (OCreate (mkFilter "X" ["a1"; "b1"] [] false) true [] []) no_fail no_fail
+  op_threads ex_store (OCreate (mkFilter "X" ["a1"; "b1"] [] false []) true [] []) no_fail no_fail
   = [[Acq "plock_X"; Acq "plock_Y"; Rel "plock_Y"; Rel "plock_X"]] /\
-  op_threads ex_store (OCreate (mkFilter "Y" ["a2"; "b2"] [] false) true [] []) no_fail no_fail
+  op_threads ex_store (OCreate (mkFilter "Y" ["a2"; "b2"] [] false []) true [] []) no_fail no_fail
   = [[Acq "plock_X"; Acq "plock_Y"; Rel "plock_Y"; Rel "plock_X"]].
 Proof. split; reflexivity. Qed.
 
